@@ -367,6 +367,7 @@ func main() {
 	lfs := safeLoad(filepath.Join(repo, "lfs"))
 	cfg := safeLoad(filepath.Join(repo, "config"))
 	tq := safeLoad(filepath.Join(repo, "tq"))
+	cmds := safeLoad(filepath.Join(repo, "commands"))
 	_ = cfg
 	_ = tq
 	out.WriteString("-- GENERATED by extract/main.go from the working tree of " + repo + "; regenerated on every check run; do not edit\n")
@@ -413,6 +414,38 @@ func main() {
 		}
 		return "def docLfsconfigKeys : List Bytes := " + bytesList(keys)
 	})
+	// ---- commands/command_track.go (C19)
+	emit("trackEscapeStrings", func() string { return "def trackEscapeStrings : List Bytes := " + bytesList(cmds.strs("trackEscapeStrings")) })
+	emit("trackEscapePatterns", func() string {
+		d, ok := cmds.decls["trackEscapePatterns"]
+		if !ok {
+			die("declaration trackEscapePatterns not found")
+		}
+		cl, ok := d.(*ast.CompositeLit)
+		if !ok {
+			die("trackEscapePatterns is not a composite literal")
+		}
+		var from, to []string
+		for _, el := range cl.Elts {
+			kv, ok := el.(*ast.KeyValueExpr)
+			if !ok {
+				die("unexpected element in trackEscapePatterns")
+			}
+			k, _ := cmds.eval(kv.Key).(string)
+			v, _ := cmds.eval(kv.Value).(string)
+			from = append(from, k)
+			to = append(to, v)
+		}
+		// canonical order (the Go map has none)
+		for i := 1; i < len(from); i++ {
+			for j := i; j > 0 && from[j-1] > from[j]; j-- {
+				from[j-1], from[j] = from[j], from[j-1]
+				to[j-1], to[j] = to[j], to[j-1]
+			}
+		}
+		return "def trackEscapeFrom : List Bytes := " + bytesList(from) + "\ndef trackEscapeTo : List Bytes := " + bytesList(to)
+	})
+	emit("prefixBlocklist", func() string { return "def prefixBlocklist : List Bytes := " + bytesList(cmds.strs("prefixBlocklist")) })
 	// ---- lfs/hook.go, lfs/attribute.go (C20)
 	emit("hooks", func() string {
 		fd := lfs.funcDecl("LoadHooks")
@@ -509,7 +542,6 @@ func main() {
 			"\ndef filterUpgradeables : List (List Bytes) := [" + strings.Join(ups, ",\n ") + "]\n"
 	})
 	// ---- commands/command_filter_process.go + vendored pktline (C14)
-	cmds := safeLoad(filepath.Join(repo, "commands"))
 	emit("pktlineMaxPacketLength", func() string {
 		gomod, err := os.ReadFile(filepath.Join(repo, "go.mod"))
 		if err != nil {
